@@ -416,16 +416,16 @@ func envSubstWithOptions() yqAction {
 		noEmpty := hasOptionParameter(value, "ne")
 		noUnset := hasOptionParameter(value, "nu")
 		failFast := hasOptionParameter(value, "ff")
-		envsubstOpType.Type = "ENVSUBST"
+		opName := envsubstOpType.Type
 		prefs := envOpPreferences{NoUnset: noUnset, NoEmpty: noEmpty, FailFast: failFast}
 		if noEmpty {
-			envsubstOpType.Type = envsubstOpType.Type + "_NO_EMPTY"
+			opName = opName + "_NO_EMPTY"
 		}
 		if noUnset {
-			envsubstOpType.Type = envsubstOpType.Type + "_NO_UNSET"
+			opName = opName + "_NO_UNSET"
 		}
 
-		op := &Operation{OperationType: envsubstOpType, Value: envsubstOpType.Type, StringValue: value, Preferences: prefs}
+		op := &Operation{OperationType: envsubstOpType, Value: opName, StringValue: value, Preferences: prefs}
 		return &token{TokenType: operationToken, Operation: op}, nil
 	}
 }
